@@ -639,4 +639,116 @@ def format (c : Consts) (s : State) (call : Call) : State × Result × Out :=
   if call.badRate then (s, .validation [.badRate], ⟨call.ioBudget, [], false⟩)
   else formatWithMultiplicity c s call
 
+/-! ## Obtaining a formatter from another one
+
+`#[derive(Clone)]` on `Emf`, `State`, `MetricsForDimensionSet` and `PrefixedStringBuf` copies every
+field; `Emf::with_sampling(_and_rng)` moves the `Emf` into a `SampledEmf`; the `FormatExt` wrappers
+(`merge_globals`, `merge_global_dimensions`, `output_to`) move it into a struct that only forwards
+`format`. None of them touches the state: the transcription of the derived `Clone` below is the
+identity (`State.clone_eq`). -/
+
+/-- derived `Clone` of `PrefixedStringBuf`: both fields copied -/
+def PBuf.clone (b : PBuf) : PBuf := { prefixLen := b.prefixLen, buf := b.buf }
+
+def DimEntry.clone (e : DimEntry) : DimEntry :=
+  { key := e.key, fieldsBuf := e.fieldsBuf.clone, metricsBuf := e.metricsBuf.clone,
+    afterNsIndex := e.afterNsIndex, index := e.index }
+
+/-- derived `Clone` of `State` (the part of `Emf::clone` that is not constant) -/
+def State.clone (s : State) : State where
+  dimMap := s.dimMap.map DimEntry.clone
+  stringFieldsBuf := s.stringFieldsBuf.clone
+  fieldsBuf := s.fieldsBuf.clone
+  metricsBuf := s.metricsBuf.clone
+  dimensionsBuf := s.dimensionsBuf.clone
+  countsBuf := s.countsBuf.clone
+  declBuf := s.declBuf.clone
+
+/-- a WRONG `Clone` (kept as a counter-example, see `Props/C14.lean`): rebuilding each buffer with
+`from_prefix(whole buffer)` turns the leftovers of earlier calls into permanent prefix -/
+def PBuf.cloneAsPrefix (b : PBuf) : PBuf := PBuf.new b.buf
+
+def State.cloneAsPrefix (s : State) : State where
+  dimMap := s.dimMap
+  stringFieldsBuf := s.stringFieldsBuf.cloneAsPrefix
+  fieldsBuf := s.fieldsBuf.cloneAsPrefix
+  metricsBuf := s.metricsBuf.cloneAsPrefix
+  dimensionsBuf := s.dimensionsBuf.cloneAsPrefix
+  countsBuf := s.countsBuf.cloneAsPrefix
+  declBuf := s.declBuf.cloneAsPrefix
+
+/-! ## An entry that panics while it is being written
+
+`Entry::write` / `Value::write` / the observation and dimension iterators are user code: a panic
+there unwinds out of `format` (no `finish`, nothing written) and, when the caller contains it
+(`catch_unwind`), the same formatter is used again. What persists is the `State` as the completed
+writer calls and the interrupted one left it. -/
+
+/-- `write_metric` interrupted by the distribution iterator panicking after it had yielded `yielded`:
+`[]`: in the first `next()` (nothing written yet); `[_]`: in the `distribution.next()` of
+`match (first, distribution.next())` (the name is written); otherwise inside the `Values` loop -/
+def partialWriteMetric (name : Bytes) (fields counts : PBuf) (yielded : List Obs) (mult : Option Nat) :
+    PBuf × PBuf :=
+  match yielded with
+  | [] => (fields, counts)
+  | [_] => (((fields.push 44).jsonString name).push 58, counts)
+  | first :: rest =>
+    let buf := (((fields.push 44).jsonString name).push 58).pushRaw (bytes! "{\"Values\":[")
+    let r1 := writeObservation buf counts.clear first mult
+    let r2 := obsLoop mult rest r1.1 r1.2.1 r1.2.2
+    (r2.1, r2.2.1)
+
+/-- an aborted call: the writer calls completed before the panic and, when the panic came out of the
+observation iterator of a `value(name, metric)` call, that call with the observations yielded so far
+(a panic in `Entry::write` between two fields, in `Value::write` or in a dimension iterator leaves
+nothing beyond the completed calls) -/
+structure Aborted where
+  items : List Item
+  partialMetric : Option (Bytes × List Obs × List (Bytes × Bytes))
+  mult : Option Nat
+  deriving Repr, DecidableEq
+
+/-- the state the formatter is left in by an aborted call -/
+def abortedCall (c : Consts) (s : State) (a : Aborted) : State :=
+  let w := a.items.foldl (applyItem c a.mult) (Writer.start c s)
+  match a.partialMetric with
+  | none => w.st
+  | some (name, yielded, dims) =>
+    let w1 := metricPreCheck c (validateName c w name).1 dims
+    if c.allowIgnored || dims.isEmpty then
+      let w2 := metricCheck c w1 name 0
+      let r := partialWriteMetric name w2.st.fieldsBuf w2.st.countsBuf yielded a.mult
+      { w2.st with fieldsBuf := r.1, countsBuf := r.2 }
+    else
+      let entry := dimEntryFor c w1 (dimKeyOf dims)
+      let w2 := metricCheck c w1 name entry.index
+      let r := partialWriteMetric name entry.fieldsBuf w2.st.countsBuf yielded a.mult
+      { w2.st with dimMap := dimSet w2.st.dimMap { entry with fieldsBuf := r.1 }, countsBuf := r.2 }
+
+/-- a pool of formatters (the original and its clones); `call k` formats on formatter `k`,
+`clone k` appends a clone of formatter `k` to the pool, `abort k` is an entry that panics while formatter
+`k` formats it. Operations naming a formatter that does not
+exist are ignored. -/
+inductive PoolOp where
+  | call (k : Nat) (call : Call)
+  | clone (k : Nat)
+  /-- an entry formatted on formatter `k` panics mid-way (contained by the caller) -/
+  | abort (k : Nat) (a : Aborted)
+  deriving Repr
+
+def runPool (c : Consts) : List State → List PoolOp → List (Result × Out)
+  | _, [] => []
+  | pool, .call k call :: rest =>
+    match pool[k]? with
+    | none => runPool c pool rest
+    | some s => (format c s call).2 :: runPool c (pool.set k (format c s call).1) rest
+  | pool, .clone k :: rest =>
+    match pool[k]? with
+    | none => runPool c pool rest
+    | some s => runPool c (pool ++ [s.clone]) rest
+  | pool, .abort k a :: rest =>
+    match pool[k]? with
+    | none => runPool c pool rest
+    | some s => runPool c (pool.set k (abortedCall c s a)) rest
+
 end Emf
